@@ -35,6 +35,10 @@ func TestCheck(t *testing.T) {
 		}
 	}
 
+	// the homomorphic searches are single-threaded BFS runs: start them now, side by side with the fault sections
+	homDone := make(chan struct{})
+	go func() { defer close(homDone); runHomomorphic() }()
+
 	kc, bc := k256Ctx(), blsG1Ctx()
 	kq, bq := k256Ctx(), blsG1Ctx()
 	explore("hashcom/faults", hashcomBody, &hashcomTally)
@@ -48,7 +52,8 @@ func TestCheck(t *testing.T) {
 	explore("pedersen/bls12381g1/equivocation", pedersenEquivBody(bq), bq.tally)
 	explore("intcom/equivocation", intcomEquivBody, &intcomEquivTally)
 
-	runHomomorphic()
+	explore("extract/keys", extractBody, nil)
+	<-homDone
 
 	if only != "" {
 		engine.HarnessFail("partial run (VERIF_C18_ONLY=%s): not a verdict", only)
@@ -64,7 +69,7 @@ func explore(name string, body func(*engine.X), t *tally) {
 	if !selected(name) {
 		return
 	}
-	sec := engine.Explore(body, engine.Opts{Name: name, Budget: engine.Budget(2*time.Minute, 15*time.Minute)})
+	sec := engine.Explore(body, engine.Opts{Name: name, Budget: engine.Budget(4*time.Minute, 30*time.Minute)})
 	if t != nil {
 		sec.Note("outcome classes: %s", t.String())
 	}
